@@ -38,6 +38,28 @@ pub fn run(out: &mut Out, tier: &str, rng: &mut Rng) {
             }
         }
     }
+    // a subscriber that falls behind (more signals than the queue holds are published while a frame is half
+    // received) must still get every later frame dispatched: command frames only (nothing is written, so the order in
+    // which the two ready select! branches run is unobservable)
+    for burst in [15usize, 16, 17, 18, 40] {
+        for cut_in in [3usize, 10, 12] {
+            let mut st = sess::frame(0x20, &[0x01]);
+            let first = st.len();
+            st.extend(sess::frame(0x20, &[0x05, 0x00, 0x64]));
+            st.extend(sess::frame(0x20, &[0x00]));
+            st.extend(sess::frame(0x45, &[0x1E, 1]));
+            let cut = first + cut_in;
+            let mut evs = vec![Ev::Bytes(st[..cut].to_vec())];
+            for _ in 0..burst {
+                evs.push(Ev::Signal(rand_signal(rng)));
+            }
+            evs.push(Ev::Bytes(st[cut..].to_vec()));
+            // and once more after the session has caught up
+            evs.push(Ev::Bytes(sess::frame(0x20, &[0x00])));
+            sess::run_case(out, &inst, "sess", &evs, true);
+            out.count(&format!("signal burst {} while a frame is half received", burst));
+        }
+    }
     let n_streams = if thorough { 4000 } else { 260 };
     for i in 0..n_streams {
         let nf = 1 + rng.below(4) as usize;
